@@ -66,6 +66,7 @@ static void add_micro(void) {
 }
 
 /* ------------------------------------------------------------------ seg mode ----------------- */
+static void add_edit_exchanges(int E);
 static hx_buf ref_dg, dg;
 static const exch *cur_ex;
 static int seg_reported;
@@ -106,10 +107,19 @@ static void mode_seg(int argc, char **argv) {
     int thorough = !strcmp(hx_tier, "thorough");
     int layers = atoi(hx_arg(argc, argv, "--layers", thorough ? "3" : "2"));
     int window3 = atoi(hx_arg(argc, argv, "--window3", "24"));
-    gx_enum_deviations(1, add_gen_pair, NULL);
-    add_adversarial();
-    int first_micro = NEX;
-    add_micro();
+    const char *source = hx_arg(argc, argv, "--source", "gen");
+    int first_micro;
+    if (!strcmp(source, "edits") || !strcmp(source, "bases")) {
+        /* "bases": the well-formed base exchanges of the edits mode (CONNECT, upgrade, 100-continue, pipelines, multipart, ...);
+         * "edits": the same with one token-level edit each - damaged input, outside C03's statement, kept as an exploration aid only */
+        add_edit_exchanges(!strcmp(source, "edits"));
+        first_micro = NEX;
+    } else {
+        gx_enum_deviations(1, add_gen_pair, NULL);
+        add_adversarial();
+        first_micro = NEX;
+        add_micro();
+    }
     static int pos[1 << 16];
     for (int i = 0; i < NEX; i++) {
         if (i % hx_shard_n != hx_shard_i) continue;
@@ -166,7 +176,7 @@ static void gen_inspect(htp_connp_t *c, hx_obs *o, void *ctx) {
     }
 }
 static const int PERS[] = { HTP_SERVER_IDS, HTP_SERVER_MINIMAL, HTP_SERVER_GENERIC, HTP_SERVER_APACHE_2, HTP_SERVER_IIS_5_1, HTP_SERVER_IIS_6_0, HTP_SERVER_IIS_7_0, HTP_SERVER_IIS_7_5 };
-static long gen_counter;
+static long gen_counter; static int gen_cuts = 1;
 static void gen_run_current(void) {
     for (size_t p = 0; p < sizeof PERS / sizeof PERS[0]; p++) {
         hx_script_init(&S); S.cfg.personality = PERS[p]; S.inspect = gen_inspect; S.label = GE.name;
@@ -176,6 +186,14 @@ static void gen_run_current(void) {
         n_exec++; n_calls += O.ncalls;
         static hx_buf d2; hx_digest(&O, &d2, 0); cx_set_add(&outcomes, hx_fnv(d2.p, d2.n, 0));
         hx_report_verdicts(&S, &O, PROPS);
+        if (p != 0 || !gen_cuts) continue;
+        /* the ground truth does not depend on how the streams arrive: every single cut and 1-byte delivery, same comparison */
+        static int pos[1 << 15]; int np = cx_all_positions(pos, GE.q.n, GE.r.n);
+        for (int a = 0; a <= np; a++) {
+            if (a < np) cx_build(&S, GE.q.p, GE.q.n, GE.r.p, GE.r.n, &pos[a], 1, 1); else cx_build_uniform(&S, GE.q.p, GE.q.n, GE.r.p, GE.r.n, 1, 1);
+            if (hx_run(&S, &O)) continue;
+            n_exec++; n_calls += O.ncalls; hx_report_verdicts(&S, &O, PROPS);
+        }
     }
 }
 static void gen_visit(const int *q, const int *s, void *ctx) {
@@ -198,6 +216,7 @@ static const int REPS[10][GS__N] = {
 static void mode_gen(int argc, char **argv) {
     int thorough = !strcmp(hx_tier, "thorough");
     int D = atoi(hx_arg(argc, argv, "--dev", thorough ? "3" : "2"));
+    gen_cuts = atoi(hx_arg(argc, argv, "--cuts", "1"));
     long total = gx_enum_deviations(D, gen_visit, NULL);
     hx_emit_stat("messages_total", hx_shard_i == 0 ? total : 0);
     /* pipelines: every sequence of length <= 3 over the representatives */
@@ -218,7 +237,7 @@ static void mode_gen(int argc, char **argv) {
 }
 
 /* ------------------------------------------------------------------ body mode (C06) --------- */
-static struct { int txi; int side; const uint8_t *body; size_t n; int64_t mlmin, mlmax; const char *desc; } BT;
+static struct { int txi; int side; const uint8_t *body; size_t n; int64_t mlmin, mlmax; const char *desc; int first_status; } BT;
 static void body_inspect(htp_connp_t *c, hx_obs *o, void *ctx) {
     (void) ctx;
     size_t n = htp_list_size(c->conn->transactions);
@@ -239,9 +258,9 @@ static void body_inspect(htp_connp_t *c, hx_obs *o, void *ctx) {
     if (ml < BT.mlmin || ml > BT.mlmax) hx_verdict_add("C06", "message_len", "%s: message_len=%lld, body took %lld..%lld bytes from the wire", BT.desc, (long long) ml, (long long) BT.mlmin, (long long) BT.mlmax);
     if (!t1->request_uri || bstr_cmp_c(t1->request_uri, "/next") != 0) hx_verdict_add("C06", "next_message", "%s: the request after the body is not reported as /next", BT.desc);
     if (t1->response_status_number != 201) hx_verdict_add("C06", "next_message", "%s: the response after the body is not reported with status 201 (got %d)", BT.desc, t1->response_status_number);
-    if (t0->response_status_number != 200) hx_verdict_add("C06", "next_message", "%s: first response status %d", BT.desc, t0->response_status_number);
+    if (t0->response_status_number != (BT.first_status ? BT.first_status : 200)) hx_verdict_add("C06", "next_message", "%s: first response status %d", BT.desc, t0->response_status_number);
 }
-static long body_counter;
+static long body_counter; static int body_extmax = 3;   /* long chunk extensions on bodies up to this length */
 static void body_run(const hx_buf *q, const hx_buf *r, size_t reg_lo, size_t reg_hi, int pairs) {
     /* uncut, all single cuts, pairs inside the framing region [reg_lo, reg_hi] (combined positions), 1-byte */
     hx_script_init(&S); S.inspect = body_inspect; S.label = BT.desc;
@@ -268,7 +287,7 @@ static void body_case(const uint8_t *body, size_t n, int extras) {
         int nfr = side == 0 ? 2 : 3;
         for (int fr = 0; fr < nfr; fr++) {
             int comps = fr == 1 ? ncomp : 1;
-            for (int comp = 0; comp < comps; comp++) for (int ext = 0; ext < (fr == 1 && extras ? 2 : 1); ext++) for (int tr = 0; tr < (fr == 1 && extras ? 2 : 1); tr++) {
+            for (int comp = 0; comp < comps; comp++) for (int ext = 0; ext < (fr == 1 ? (extras ? 3 : ((int) n <= body_extmax ? 2 : 1)) : 1); ext++) for (int tr = 0; tr < (fr == 1 && extras ? 2 : 1); tr++) {
                 long id = body_counter++;
                 if (id % hx_shard_n != hx_shard_i || hx_deadline_hit()) continue;
                 hb_reset(&q); hb_reset(&r);
@@ -287,7 +306,7 @@ static void body_case(const uint8_t *body, size_t n, int extras) {
                 else hb_puts(w, "\r\n");
                 lo = w->n >= 3 ? w->n - 3 : 0;
                 size_t before = w->n;
-                if (fr == 1) gx_chunked(w, body, n, sizes, ns, ext, tr); else hb_put(w, body, n);
+                if (fr == 1) gx_chunked(w, body, n, sizes, ns, extras ? ext : ext * 2, tr); else hb_put(w, body, n);
                 size_t framed = w->n - before;
                 BT.side = side; BT.body = body; BT.n = n; BT.txi = (side == 1 && fr == 2) ? 1 : 0;
                 if (fr == 1) { size_t tail = 2 + (tr ? 9 : 0); BT.mlmin = (int64_t) (framed - tail); BT.mlmax = (int64_t) framed; } else BT.mlmin = BT.mlmax = (int64_t) n;
@@ -312,10 +331,33 @@ static void body_case(const uint8_t *body, size_t n, int extras) {
         }
     }
 }
+/* a final 4xx answer to an "Expect: 100-continue" upload that arrives while the body is on its way: the client goes on
+ * sending the body it announced (RFC 7231 5.1.1 allows both), so the rest of the body is still body and /next follows it */
+static void body_early_final(const uint8_t *body, size_t n) {
+    static hx_buf q, r1, r2; static char desc[200];
+    for (size_t k = 1; k < n; k++) for (int st = 0; st < 3; st++) {
+        long id = body_counter++;
+        if (id % hx_shard_n != hx_shard_i || hx_deadline_hit()) continue;
+        static const char *const STAT[] = { "417 Expectation Failed", "401 Unauthorized", "413 Too Large" };
+        hb_reset(&q); hb_reset(&r1); hb_reset(&r2);
+        hb_printf(&q, "POST /first HTTP/1.1\r\nHost: h\r\nExpect: 100-continue\r\nContent-Length: %zu\r\n\r\n", n);
+        size_t hdr = q.n; hb_put(&q, body, n); hb_puts(&q, "GET /next HTTP/1.1\r\nHost: h\r\n\r\n");
+        hb_printf(&r1, "HTTP/1.1 %s\r\nContent-Length: 2\r\n\r\nno", STAT[st]); hb_puts(&r2, "HTTP/1.1 201 Created\r\nContent-Length: 0\r\n\r\n");
+        static hx_buf be; hb_reset(&be); hb_esc(&be, body, n > 40 ? 40 : n); hb_term(&be);
+        snprintf(desc, sizeof desc, "request body \"%s\" with Expect: 100-continue, answered %s after %zu of %zu body bytes", (char *) be.p, STAT[st], k, n);
+        BT.side = 0; BT.body = body; BT.n = n; BT.txi = 0; BT.mlmin = BT.mlmax = (int64_t) n; BT.desc = desc; BT.first_status = atoi(STAT[st]);
+        hx_script_init(&S); S.inspect = body_inspect; S.label = desc; S.nops = 0;
+        hx_script_add(&S, OP_Q, q.p, (uint32_t) (hdr + k)); hx_script_add(&S, OP_S, r1.p, (uint32_t) r1.n);
+        hx_script_add(&S, OP_Q, q.p + hdr + k, (uint32_t) (q.n - hdr - k)); hx_script_add(&S, OP_S, r2.p, (uint32_t) r2.n); hx_script_add(&S, OP_CLOSE, NULL, 0);
+        if (hx_run(&S, &O) == 0) { n_exec++; n_calls += O.ncalls; cx_set_add(&outcomes, hx_fnv(O.cbtrace.p, O.cbtrace.n, (uint64_t) body_counter)); hx_report_verdicts(&S, &O, PROPS); }
+        BT.first_status = 0;
+    }
+}
 static void mode_body(int argc, char **argv) {
     (void) argc; (void) argv;
     int thorough = !strcmp(hx_tier, "thorough");
     int maxlen = atoi(hx_arg(argc, argv, "--maxlen", thorough ? "5" : "4"));
+    body_extmax = atoi(hx_arg(argc, argv, "--extmax", thorough ? "4" : "2"));
     static const uint8_t A[] = { '\r', '\n', 0, 'a', '0', ';' };
     uint8_t b[8];
     for (int len = 0; len <= maxlen; len++) {
@@ -330,6 +372,8 @@ static void mode_body(int argc, char **argv) {
     static const char *const LOOK[] = { "GET / HTTP/1.1\r\n\r\n", "HTTP/1.1 200 OK\r\n\r\n", "0\r\n\r\n", "5\r\nhello\r\n", "\r\n0\r\n\r\n", "POST /x HTTP/1.1\r\nContent-Length: 5\r\n\r\n",
                                         "HTTP/1.1 100 Continue\r\n\r\n", "ffffffff\r\n", "\r\n\r\n", "1;x\r\nZ\r\n", "Content-Length: 0\r\n\r\n", "X" };
     for (size_t i = 0; i < sizeof LOOK / sizeof LOOK[0]; i++) body_case((const uint8_t *) LOOK[i], strlen(LOOK[i]), 1);
+    for (size_t i = 0; i < sizeof LOOK / sizeof LOOK[0]; i++) body_early_final((const uint8_t *) LOOK[i], strlen(LOOK[i]));
+    body_early_final((const uint8_t *) "0123456789", 10); body_early_final((const uint8_t *) "ab\ncd\n", 6);
     hx_emit_stat("body_cases", hx_shard_i == 0 ? body_counter : 0);
 }
 
@@ -807,6 +851,165 @@ static void mode_limits(int argc, char **argv) {
     hx_emit_stat("limit_cases", hx_shard_i == 0 ? limits_counter : 0);
 }
 
+/* ------------------------------------------------------------------ edits mode (deep damaged histories) ---- */
+/* A base is a well-formed exchange written as two token lists.  A deviation is one token-level edit of either list
+ * (insert a pool token, delete, duplicate, replace by a pool token, truncate after a token, truncate in the middle of a token, turn into a stream gap); every history
+ * with <= E edits is run under every schedule with <= P preemptions, with all monitors.  This is the same iterative
+ * deviation bounding as for cuts, applied to content: it reaches error and hand-over paths many exchanges deep. */
+typedef struct etok { const char *d; uint32_t n; uint8_t gap; } etok;
+#define T(s) { s, sizeof(s) - 1, 0 }
+static const etok QPOOL[] = { T("GET /a HTTP/1.1\r\n"), T("POST /p HTTP/1.1\r\n"), T("HEAD /h HTTP/1.1\r\n"), T("CONNECT h:1 HTTP/1.1\r\n"), T("GET /z\r\n"), T("Host: h\r\n"), T("Content-Length: 3\r\n"),
+    T("Transfer-Encoding: chunked\r\n"), T("Expect: 100-continue\r\n"), T("\r\n"), T("abc"), T("3\r\nabc\r\n"), T("0\r\n"), T("\x16\x03\x01\x00"), T("X\0Y\r\n"), T(" fold\r\n"), T("GET /a HT"), T("\r"), T("Content-Length: x\r\n"), T("3;ext=0123456789\r\nabc\r\n"), T("zz\r\n") };
+static const etok RPOOL[] = { T("HTTP/1.1 200 OK\r\n"), T("HTTP/1.1 100 Continue\r\n"), T("HTTP/1.1 101 Sw\r\n"), T("HTTP/1.1 204 No\r\n"), T("HTTP/1.1 404 NF\r\n"), T("HTTP/1.1 407 PA\r\n"), T("Content-Length: 2\r\n"),
+    T("Content-Length: x\r\n"), T("Transfer-Encoding: chunked\r\n"), T("Content-Encoding: gzip\r\n"), T("\r\n"), T("ok"), T("2\r\nok\r\n"), T("0\r\n"), T("junk\r\n"), T("this is no chunk length line, is it?\r\n"), T(" fold\r\n"), T("HTTP/1.1 2"), T("\r"), T("2;ext=0123456789\r\nok\r\n"), T("  \t 2\r\nok\r\n") };
+#define NQP ((int) (sizeof QPOOL / sizeof QPOOL[0]))
+#define NRP ((int) (sizeof RPOOL / sizeof RPOOL[0]))
+typedef struct ebase { const char *name; const char *q[24]; const char *r[24]; } ebase;   /* NULL-terminated token lists (text tokens only) */
+static const ebase BASES[] = {
+    { "plain GET", { "GET /1 HTTP/1.1\r\n", "Host: h\r\n", "\r\n" }, { "HTTP/1.1 200 OK\r\n", "Content-Length: 2\r\n", "\r\n", "ok" } },
+    { "POST with CL body", { "POST /2 HTTP/1.1\r\n", "Host: h\r\n", "Content-Length: 3\r\n", "\r\n", "abc" }, { "HTTP/1.1 200 OK\r\n", "Content-Length: 2\r\n", "\r\n", "ok" } },
+    { "chunked both ways + trailers", { "POST /3 HTTP/1.1\r\n", "Host: h\r\n", "Transfer-Encoding: chunked\r\n", "\r\n", "3\r\nabc\r\n", "0\r\n", "X-T: t\r\n", "\r\n" },
+                                      { "HTTP/1.1 200 OK\r\n", "Transfer-Encoding: chunked\r\n", "\r\n", "2\r\nok\r\n", "0\r\n", "X-T: t\r\n", "\r\n" } },
+    { "HEAD", { "HEAD /4 HTTP/1.1\r\n", "Host: h\r\n", "\r\n" }, { "HTTP/1.1 200 OK\r\n", "Content-Length: 2\r\n", "\r\n" } },
+    { "PUT", { "PUT /5 HTTP/1.1\r\n", "Host: h\r\n", "Content-Length: 3\r\n", "\r\n", "abc" }, { "HTTP/1.1 201 C\r\n", "Content-Length: 0\r\n", "\r\n" } },
+    { "100-continue", { "POST /6 HTTP/1.1\r\n", "Host: h\r\n", "Expect: 100-continue\r\n", "Content-Length: 3\r\n", "\r\n", "abc" }, { "HTTP/1.1 100 Continue\r\n", "\r\n", "HTTP/1.1 200 OK\r\n", "Content-Length: 2\r\n", "\r\n", "ok" } },
+    { "100-continue refused while the body is being sent", { "POST /6 HTTP/1.1\r\n", "Host: h\r\n", "Expect: 100-continue\r\n", "Content-Length: 4\r\n", "\r\n", "ab", "cd", "GET /n HTTP/1.1\r\n", "Host: h\r\n", "\r\n" },
+                                                           { "HTTP/1.1 417 EF\r\n", "Content-Length: 0\r\n", "\r\n", "HTTP/1.1 200 OK\r\n", "Content-Length: 2\r\n", "\r\n", "ok" } },
+    { "HTTP/0.9", { "GET /7\r\n" }, { "raw body\r\n" } },
+    { "pipelined pair", { "GET /8 HTTP/1.1\r\n", "Host: h\r\n", "\r\n", "GET /9 HTTP/1.1\r\n", "Host: h\r\n", "\r\n" }, { "HTTP/1.1 200 OK\r\n", "Content-Length: 2\r\n", "\r\n", "ok", "HTTP/1.1 404 NF\r\n", "Content-Length: 0\r\n", "\r\n" } },
+    { "pipelined triple", { "GET /a HTTP/1.1\r\n", "Host: h\r\n", "\r\n", "POST /b HTTP/1.1\r\n", "Host: h\r\n", "Content-Length: 3\r\n", "\r\n", "abc", "GET /c HTTP/1.1\r\n", "Host: h\r\n", "\r\n" },
+                          { "HTTP/1.1 200 OK\r\n", "Content-Length: 2\r\n", "\r\n", "ok", "HTTP/1.1 204 No\r\n", "\r\n", "HTTP/1.1 200 OK\r\n", "Transfer-Encoding: chunked\r\n", "\r\n", "2\r\nok\r\n", "0\r\n", "\r\n" } },
+    { "CONNECT accepted, HTTP inside", { "CONNECT h:1 HTTP/1.1\r\n", "Host: h\r\n", "\r\n", "GET /t HTTP/1.1\r\n", "Host: h\r\n", "\r\n" }, { "HTTP/1.1 200 OK\r\n", "\r\n", "HTTP/1.1 200 OK\r\n", "Content-Length: 2\r\n", "\r\n", "ok" } },
+    { "CONNECT accepted, binary inside", { "CONNECT h:1 HTTP/1.1\r\n", "Host: h\r\n", "\r\n", "\x16\x03\x01\x02\n" }, { "HTTP/1.1 200 OK\r\n", "\r\n", "\x17\x03\x03\x02\n" } },
+    { "CONNECT refused 403", { "CONNECT h:1 HTTP/1.1\r\n", "Host: h\r\n", "\r\n", "GET /t HTTP/1.1\r\n", "Host: h\r\n", "\r\n" }, { "HTTP/1.1 403 No\r\n", "Content-Length: 0\r\n", "\r\n", "HTTP/1.1 200 OK\r\n", "Content-Length: 2\r\n", "\r\n", "ok" } },
+    { "CONNECT refused 407", { "CONNECT h:1 HTTP/1.1\r\n", "Host: h\r\n", "\r\n", "GET /t HTTP/1.1\r\n", "Host: h\r\n", "\r\n" }, { "HTTP/1.1 407 PA\r\n", "Content-Length: 0\r\n", "\r\n", "HTTP/1.1 200 OK\r\n", "Content-Length: 2\r\n", "\r\n", "ok" } },
+    { "!upgrade 101", { "GET /w HTTP/1.1\r\n", "Host: h\r\n", "Upgrade: websocket\r\n", "\r\n", "\x81\x02hi" }, { "HTTP/1.1 101 Sw\r\n", "Upgrade: websocket\r\n", "\r\n", "\x81\x02yo" } },
+    { "close-delimited response", { "GET /d HTTP/1.0\r\n", "\r\n" }, { "HTTP/1.0 200 OK\r\n", "\r\n", "body until close" } },
+    { "folded + repeated headers", { "GET /f HTTP/1.1\r\n", "Host: h\r\n", "X-A: a\r\n", " b\r\n", "X-A: c\r\n", "\r\n" }, { "HTTP/1.1 200 OK\r\n", "X-B: a\r\n", "\tb\r\n", "X-B: c\r\n", "Content-Length: 0\r\n", "\r\n" } },
+    { "urlencoded body", { "POST /u?x=1 HTTP/1.1\r\n", "Host: h\r\n", "Content-Type: application/x-www-form-urlencoded\r\n", "Content-Length: 7\r\n", "\r\n", "a=1&", "b=2" }, { "HTTP/1.1 200 OK\r\n", "Content-Length: 0\r\n", "\r\n" } },
+    { "multipart body", { "POST /m HTTP/1.1\r\n", "Host: h\r\n", "Content-Type: multipart/form-data; boundary=B\r\n", "Transfer-Encoding: chunked\r\n", "\r\n", "3d\r\n--B\r\nContent-Disposition: form-data; name=\"a\"\r\n\r\nv\r\n--B--\r\n\r\n", "0\r\n", "\r\n" },
+                        { "HTTP/1.1 200 OK\r\n", "Content-Length: 0\r\n", "\r\n" } },
+    { "!gzip response, data not gzip", { "GET /g HTTP/1.1\r\n", "Host: h\r\n", "\r\n" }, { "HTTP/1.1 200 OK\r\n", "Content-Encoding: gzip\r\n", "Content-Length: 24\r\n", "\r\n", "not gzip at ", "all, really!" } },
+    { "!gzip response until close, data not gzip", { "GET /g HTTP/1.0\r\n", "\r\n" }, { "HTTP/1.0 200 OK\r\n", "Content-Encoding: gzip\r\n", "\r\n", "not gzip at ", "all, really!" } },
+    { "gzip response", { "GET /g HTTP/1.1\r\n", "Host: h\r\n", "\r\n" }, { "HTTP/1.1 200 OK\r\n", "Content-Encoding: gzip\r\n", "Content-Length: 29\r\n", "\r\n", "hex:1f8b0800000000000203cb48cdc9", "hex:c957c8c04e0200f6d253381d000000" } },
+};
+#define NBASES ((int) (sizeof BASES / sizeof BASES[0]))
+static etok EQ[40], ER[40]; static int NEQ, NER;
+static char edit_desc[300];
+static long edit_execs;
+static void edits_schedules(int P) {
+    /* two threads Q (request tokens) and R (response tokens); default = keep feeding the same direction, requests first;
+     * a preemption switches away from a direction that still has tokens */
+    int m = NEQ, n = NER;
+    /* P >= 0: Q all, R all.  P >= 1: Q[0,i) R all Q[i,m)  and  R[0,j) Q all R[j,n).  P >= 2: Q[0,i) R[0,j) Q[i,m) R[j,n) and the mirror */
+    for (int form = 0; form < (P >= 2 ? 5 : P >= 1 ? 3 : 1); form++) {
+        int imax = (form == 1 || form == 3) ? m : (form == 2 || form == 4) ? n : 1;
+        for (int i = (form == 0 ? 0 : 0); i < imax + (form == 0 ? 0 : 0); i++) {
+            int jmax = form == 3 ? n : form == 4 ? m : 1;
+            for (int j = (form >= 3 ? 1 : 0); j < jmax; j++) {
+                if (form == 3 && (i == 0 || i == m)) continue;
+                if (form == 4 && (i == 0 || i == n)) continue;
+                hx_script_init(&S); S.label = edit_desc;
+#define ADDQ(a, b) for (int k_ = (a); k_ < (b); k_++) hx_script_add(&S, EQ[k_].gap ? OP_QG : OP_Q, EQ[k_].gap ? NULL : EQ[k_].d, EQ[k_].n)
+#define ADDR(a, b) for (int k_ = (a); k_ < (b); k_++) hx_script_add(&S, ER[k_].gap ? OP_SG : OP_S, ER[k_].gap ? NULL : ER[k_].d, ER[k_].n)
+                switch (form) {
+                    case 0: ADDQ(0, m); ADDR(0, n); break;
+                    case 1: ADDQ(0, i); ADDR(0, n); ADDQ(i, m); break;
+                    case 2: ADDR(0, i); ADDQ(0, m); ADDR(i, n); break;
+                    case 3: ADDQ(0, i); ADDR(0, j); ADDQ(i, m); ADDR(j, n); break;
+                    case 4: ADDR(0, i); ADDQ(0, j); ADDR(i, n); ADDQ(j, m); break;
+                }
+                hx_script_add(&S, OP_CLOSE, NULL, 0);
+                if (hx_run(&S, &O)) continue;
+                n_exec++; edit_execs++; n_calls += O.ncalls; cx_set_add(&outcomes, hx_fnv(O.cbtrace.p, O.cbtrace.n, (uint64_t) O.final_in_status * 16 + (uint64_t) O.final_out_status));
+                hx_report_verdicts(&S, &O, PROPS);
+            }
+        }
+    }
+}
+static long edit_counter;
+/* apply one edit (code e) to list L of length *n over pool; returns 0 if the code is out of range */
+static int apply_edit(etok *L, int *n, const etok *pool, int npool, int e) {
+    int len = *n;
+    int n_ins = (len + 1) * npool, n_del = len, n_dup = len, n_rep = len * npool, n_trunc = len, n_gap = len;
+    if (e < n_ins) { int pos = e / npool, t = e % npool; memmove(&L[pos + 1], &L[pos], (size_t) (len - pos) * sizeof(etok)); L[pos] = pool[t]; (*n)++; return 1; } e -= n_ins;
+    if (e < n_del) { memmove(&L[e], &L[e + 1], (size_t) (len - e - 1) * sizeof(etok)); (*n)--; return 1; } e -= n_del;
+    if (e < n_dup) { memmove(&L[e + 1], &L[e], (size_t) (len - e) * sizeof(etok)); (*n)++; return 1; } e -= n_dup;
+    if (e < n_rep) { L[e / npool] = pool[e % npool]; return 1; } e -= n_rep;
+    if (e < n_trunc) { *n = e; return 1; } e -= n_trunc;
+    if (e < n_gap) { L[e].gap = 1; return 1; } e -= n_gap;
+    if (e < len) { *n = e + 1; if (L[e].n > 1) L[e].n = (L[e].n + 1) / 2; return 1; }            /* the stream ends in the middle of token e */
+    return 0;
+}
+static int n_edits_of(int len, int npool) { return (len + 1) * npool + len + len + len * npool + len + len + len; }
+/* a token written "hex:..." is binary; it is decoded once into an arena */
+static etok base_tok(const char *t) {
+    if (strncmp(t, "hex:", 4)) return (etok) { t, (uint32_t) strlen(t), 0 };
+    static struct { const char *src; char *bin; uint32_t n; } memo[16]; static int nmemo;
+    for (int i = 0; i < nmemo; i++) if (memo[i].src == t) return (etok) { memo[i].bin, memo[i].n, 0 };
+    size_t n = strlen(t + 4) / 2; char *b = malloc(n + 1);
+    for (size_t i = 0; i < n; i++) { unsigned v; sscanf(t + 4 + 2 * i, "%2x", &v); b[i] = (char) v; }
+    if (nmemo < 16) { memo[nmemo].src = t; memo[nmemo].bin = b; memo[nmemo].n = (uint32_t) n; nmemo++; }
+    return (etok) { b, (uint32_t) n, 0 };
+}
+static void load_base(const ebase *b) { NEQ = NER = 0; for (int i = 0; b->q[i]; i++) EQ[NEQ++] = base_tok(b->q[i]); for (int i = 0; b->r[i]; i++) ER[NER++] = base_tok(b->r[i]); }
+static void add_edit_exchanges(int E) {
+    for (int b = 0; b < NBASES; b++) {
+        load_base(&BASES[b]);
+        int e1q = n_edits_of(NEQ, NQP), e1r = n_edits_of(NER, NRP);
+        if (!E && BASES[b].name[0] == '!') continue;          /* not a well-formed exchange when all request bytes are delivered first (bad coding, client frames before the 101) */
+        for (int e1 = -1; e1 < (E ? e1q + e1r : 0); e1++) {
+            load_base(&BASES[b]);
+            if (e1 >= 0) { if (e1 < e1q) apply_edit(EQ, &NEQ, QPOOL, NQP, e1); else apply_edit(ER, &NER, RPOOL, NRP, e1 - e1q); }
+            int gap = 0;
+            for (int k = 0; k < NEQ; k++) gap |= EQ[k].gap;
+            for (int k = 0; k < NER; k++) gap |= ER[k].gap;
+            if (gap) continue;                               /* a gap is not a segmentation of a byte stream */
+            exch *e = ex_new();
+            if (e1 < 0) snprintf(e->name, sizeof e->name, "base \"%s\", no edit", BASES[b].name);
+            else snprintf(e->name, sizeof e->name, "base \"%s\", edit #%d (%s list)", BASES[b].name, e1, e1 < e1q ? "request" : "response");
+            for (int k = 0; k < NEQ; k++) hb_put(&e->q, EQ[k].d, EQ[k].n);
+            for (int k = 0; k < NER; k++) hb_put(&e->r, ER[k].d, ER[k].n);
+            if (e->q.n < 1 || e->r.n < 1) { hb_free(&e->q); hb_free(&e->r); NEX--; }
+        }
+    }
+}
+static void mode_edits(int argc, char **argv) {
+    int thorough = !strcmp(hx_tier, "thorough");
+    int E = atoi(hx_arg(argc, argv, "--edits", thorough ? "2" : "1")), P = atoi(hx_arg(argc, argv, "--preempt", thorough ? "2" : "1"));
+    int cfgi = atoi(hx_arg(argc, argv, "--cfg", "0"));
+    for (int b = 0; b < NBASES; b++) {
+        load_base(&BASES[b]);
+        int nq0 = NEQ, nr0 = NER;
+        int e1q = n_edits_of(nq0, NQP), e1r = n_edits_of(nr0, NRP);
+        /* 0 edits */
+        if (edit_counter++ % hx_shard_n == hx_shard_i) { snprintf(edit_desc, sizeof edit_desc, "base \"%s\", no edit", BASES[b].name); edits_schedules(P); }
+        for (int e1 = 0; e1 < e1q + e1r; e1++) {
+            if (edit_counter++ % hx_shard_n != hx_shard_i && E < 2) continue;
+            int mine = ((edit_counter - 1) % hx_shard_n == hx_shard_i);
+            load_base(&BASES[b]);
+            if (e1 < e1q) apply_edit(EQ, &NEQ, QPOOL, NQP, e1); else apply_edit(ER, &NER, RPOOL, NRP, e1 - e1q);
+            if (mine) { snprintf(edit_desc, sizeof edit_desc, "base \"%s\", edit #%d (%s list)", BASES[b].name, e1, e1 < e1q ? "request" : "response"); edits_schedules(P); if (hx_deadline_hit()) return; }
+            if (E >= 2) {
+                etok sq[40], sr[40]; int snq = NEQ, snr = NER; memcpy(sq, EQ, sizeof sq); memcpy(sr, ER, sizeof sr);
+                int e2q = n_edits_of(snq, NQP), e2r = n_edits_of(snr, NRP);
+                for (int e2 = 0; e2 < e2q + e2r; e2++) {
+                    if (edit_counter++ % hx_shard_n != hx_shard_i) continue;
+                    memcpy(EQ, sq, sizeof sq); memcpy(ER, sr, sizeof sr); NEQ = snq; NER = snr;
+                    if (e2 < e2q) apply_edit(EQ, &NEQ, QPOOL, NQP, e2); else apply_edit(ER, &NER, RPOOL, NRP, e2 - e2q);
+                    if (NEQ > 38 || NER > 38) continue;
+                    snprintf(edit_desc, sizeof edit_desc, "base \"%s\", edits #%d then #%d", BASES[b].name, e1, e2);
+                    edits_schedules(P > 1 ? 1 : P);          /* double edits: <= 1 preemption */
+                    if (hx_deadline_hit()) return;
+                }
+            }
+        }
+    }
+    (void) cfgi;
+    hx_emit_stat("edit_histories", hx_shard_i == 0 ? edit_counter : 0);
+    hx_emit_sample("base \"CONNECT refused 407\" with one token-level edit (insert / delete / duplicate / replace / truncate / gap) under every schedule with <= 1 preemption");
+}
+
 static int worker(int argc, char **argv) {
     PROPS = hx_arg(argc, argv, "--props", "C03");
     const char *mode = hx_arg(argc, argv, "--mode", "seg");
@@ -817,6 +1020,7 @@ static int worker(int argc, char **argv) {
     else if (!strcmp(mode, "tunnel")) mode_tunnel(argc, argv);
     else if (!strcmp(mode, "corpus")) mode_corpus(argc, argv);
     else if (!strcmp(mode, "limits")) mode_limits(argc, argv);
+    else if (!strcmp(mode, "edits")) mode_edits(argc, argv);
     else { fprintf(stderr, "cutmc: unknown mode %s\n", mode); return 2; }
     hx_emit_stat("executions", n_exec); hx_emit_stat("calls", n_calls); hx_emit_stat("distinct_outcomes", (long long) outcomes.cnt);
     return 0;
